@@ -6578,15 +6578,26 @@ def _gl_coeffs(src, out):
         raise Untranslatable("correlation_2d_integral: no shape dispatch")
     node = node[0]
     found = {}
+    offset_blocks = []
+    guard_tests = []
     while isinstance(node, ast.If):
         test = _gl_norm(node.test)
         if not test.startswith("shape == "):
             raise Untranslatable("correlation_2d_integral: dispatch test " + test)
         shape = ast.literal_eval(test[len("shape == "):])
-        if len(node.body) != 1 or not isinstance(node.body[0], ast.Assign) \
-                or _gl_norm(node.body[0].targets[0]) != "integral":
+        body = list(node.body)
+        # an extra correction that is active only for cells away from the origin
+        # (`if time_1 != 0.0: ...`) does not concern the coefficients, which ask for the
+        # triangle at time_1 = 0.0 only (checked below through coeff_time1 at k = 0)
+        if len(body) == 2 and isinstance(body[1], ast.If) and not body[1].orelse \
+                and _gl_norm(body[1].test) == "time_1 != 0.0":
+            offset_blocks.append(shape)
+            guard_tests.append(body[1].test)
+            body = body[:1]
+        if len(body) != 1 or not isinstance(body[0], ast.Assign) \
+                or _gl_norm(body[0].targets[0]) != "integral":
             raise Untranslatable("correlation_2d_integral[%s]: branch shape" % shape)
-        found[shape] = node.body[0].value
+        found[shape] = body[0].value
         node = node.orelse[0] if len(node.orelse) == 1 else None
 
     def terms(e, sign):
@@ -6616,6 +6627,19 @@ def _gl_coeffs(src, out):
                    "def %s : List (Int × Int) := [%s]\n"
                    % (rel, shape, _gl_norm(found[shape]), name,
                       ", ".join("(%d, %d)" % t for t in ts)))
+    out.append("/-- shapes whose branch carries an extra term guarded by `if time_1 != 0.0:` "
+               "(inactive for the cells the Gibbs coefficients ask for) -/\n"
+               "def c2d_offset_guarded_shapes : List String := [%s]\n"
+               % ", ".join('"%s"' % x for x in offset_blocks))
+    # the guard itself, as a function of the time_1 handed in (every guarded shape uses this test);
+    # Props/C11 proves it false for every cell the coefficient function asks of a guarded shape
+    gtr = FnTranslator({"time_1": "Flt"})
+    gterm = gtr.expr(guard_tests[0])[0] if guard_tests else "false"
+    if not guard_tests:
+        gtr.var("time_1")
+    out.append(emit_def("c2d_offset_guard", gtr, gterm, "Bool", ["time_1"],
+                        "the test guarding the extra term of the shapes in c2d_offset_guarded_shapes: "
+                        + (_gl_norm(guard_tests[0]) if guard_tests else "(no guarded shape)")))
     kws = [s for s in c2d.body if isinstance(s, ast.Assign) and _gl_norm(s.targets[0]) == "kwargs"]
     if len(kws) != 1 or "'matsubara': matsubara" not in _gl_norm(kws[0].value):
         raise Untranslatable("correlation_2d_integral: matsubara is not handed to eta_function")
@@ -6969,6 +6993,9 @@ class _GLScalar:
             ch = attr_chain(e.func)
             if ch == ["np", "exp"] and len(e.args) == 1 and not e.keywords:
                 return "(E %s)" % self.tr(e.args[0])
+            if ch == ["np", "expm1"] and len(e.args) == 1 and not e.keywords:
+                # expm1(x) denotes exp(x) - 1 (evaluated without cancellation)
+                return "((E %s) - (1 : F))" % self.tr(e.args[0])
             if ch == ["self", "_spectral_density"] and _gl_norm(e) == "self._spectral_density(w)":
                 return "J"
         raise Untranslatable("thermal integrand: " + _gl_norm(e)[:120])
